@@ -184,7 +184,7 @@ def gen_sizer_case(rng, kind):
         for i in items:
             i[2] = rng.choice([1.0, 0.5, 2.0, 0.25, round(rng.uniform(0.5, 3), 2)])
         fee = ['Z'] if rng.random() < 0.7 else fee
-    case = dict(kind=kind, equity=equity, param=param, fee=fee, items=items)
+    case = dict(kind=kind, equity=equity, param=param, fee=fee, items=items, csv=rng.random() < 0.03)
     if items and rng.random() < 0.15:
         # the same sizer object served earlier calls; with `same_dict` the caller's dictionary object is re-used and
         # modified in place between calls (the sizer is specified as a function of the weights it is given now)
@@ -282,11 +282,45 @@ def gen_eqw_case(rng):
 # ---------------------------------------------------------------------------------------------
 # execution on the real code
 
+def csv_handler(prices):
+    """the same prices served by the real data layer: one CSV per asset with a bar on the query day and around it; an asset
+    without a price has empty cells up to and including the query day and priced bars afterwards (listed later than its file
+    starts)"""
+    import datetime as dtm
+    import os
+    import common
+    from qstrader.data.backtest_data_handler import BacktestDataHandler
+    from qstrader.data.daily_bar_csv import CSVDailyBarDataSource
+    d = common.scratch_dir('k4')
+    day0 = dtm.date(1970, 1, 1) + dtm.timedelta(days=MON_OPEN // 86400)
+    for a, p in prices.items():
+        with open(os.path.join(d, a.split(':', 1)[1] + '.csv'), 'w') as f:
+            f.write('Date,Open,High,Low,Close,Adj Close,Volume\n')
+            for k in range(-4, 4):
+                dd = day0 + dtm.timedelta(days=k)
+                if dd.weekday() > 4:
+                    continue
+                if p is None:
+                    cell = '' if k <= 0 else '77.0'
+                else:
+                    cell = repr(float(p))
+                f.write('%s,%s,%s,%s,%s,%s,1000\n' % (dd.isoformat(), cell, cell, cell, cell, cell))
+    return BacktestDataHandler(None, data_sources=[CSVDailyBarDataSource(d, None, adjust_prices=False)])
+
+
 def run_sizer(case):
     cls = DW if case['kind'] == 'dw' else LS
     prices = {a: p for h in case.get('history', []) for a, w, p in h}
     prices.update({a: p for a, w, p in case['items']})
-    dh = PriceDH(prices)
+    dh = csv_handler(prices) if case.get('csv') and prices else PriceDH(prices)
+    if case.get('csv') and prices:
+        # decimal text is parsed by pandas' fast float parser, which may land one ulp from the written double: the case
+        # continues with the prices the data layer actually serves (what it serves for a file is C06's business)
+        for it in case['items']:
+            if it[2] is not None:
+                v = float(dh.get_asset_latest_ask_price(ts(MON_OPEN), it[0]))
+                if v == v:
+                    it[2] = v
     res = dict(new='ok', out=None, qty=None)
     try:
         stub = StubBroker(case['equity'], case['fee'])
